@@ -23,6 +23,10 @@ from pyvc import known                   # noqa: E402
 from pyvc import source                  # noqa: E402
 
 VENV_PY = os.environ.get("PYVC_REPO_PYTHON", "/venv/bin/python")
+# evidence and replays of runs against a scratch tree (PYVC_REPO set) never overwrite the real ones
+_SCRATCH = os.path.realpath(source.REPO) != "/repo"
+EVIDENCE = "evidence_scratch" if _SCRATCH else "evidence"
+REPLAYS = "replays_scratch" if _SCRATCH else "replays"
 
 
 def _worker(args):
@@ -139,6 +143,32 @@ def check(pid, tier="quick", seed=0, jobs=None, only=None, verbose=False):
     if quals and n_obl == 0:
         exit_code = max(exit_code, 3)
         lines.append("CHECKER-ERROR zero obligations generated for %s" % pid)
+    # An obligation the solvers leave open (typical for a *false* quantified goal: no finite model is
+    # produced) is not a violation by itself. The contract's witness search is run on the real code:
+    # only a failing input found there turns it into a violation; otherwise it stays undecided.
+    os.makedirs(os.path.join(ROOT, REPLAYS, pid), exist_ok=True)
+    searched = {}
+    for n in list(unknown):
+        con = C.REGISTRY[n["qual"]]
+        if con.replay_fn is None:
+            continue
+        if n["qual"] not in searched:
+            rp = os.path.join(ROOT, REPLAYS, pid, "search_" + san(n["qual"]) + ".json")
+            try:
+                rspec = con.replay_fn({}, n)
+            except TypeError:
+                rspec = con.replay_fn({})
+            json.dump({"property": pid, "obligation": n["name"], "model": {}, "replay": rspec,
+                       "solver_output": "unknown (%s); witness search on the real code" % "; ".join(
+                           sorted(set(str(s.get("reason", "")) for s in n["subs"] if s["status"] == "unknown")))},
+                      open(rp, "w"), indent=1, default=str)
+            searched[n["qual"]] = (rp,) + run_replay(rp)
+        rp, rc, out = searched[n["qual"]]
+        if rc == 1:
+            unknown.remove(n)
+            n["witness_search"] = {"replay": rp, "output": out[-1500:]}
+            n["subs"].append({"status": "refuted", "model": {}, "backend": "witness-search", "goal": None, "time": 0})
+            refuted.append(n)
     for n in unknown:
         exit_code = max(exit_code, 2)
         lines.append("UNDECIDED %s (%s)" % (n["name"], "; ".join(sorted(set(str(s.get("reason", "")) for s in n["subs"] if s["status"] == "unknown")))))
@@ -154,13 +184,13 @@ def check(pid, tier="quick", seed=0, jobs=None, only=None, verbose=False):
     # ---------------------------------------------------------------- known findings
     kf_lines = []
     violations = 0
-    os.makedirs(os.path.join(ROOT, "replays", pid), exist_ok=True)
+    os.makedirs(os.path.join(ROOT, REPLAYS, pid), exist_ok=True)
     for e in known.for_property(pid):
         if e["kind"] != "known":
             continue
         still = None
         if e.get("witness") is not None:
-            rp = os.path.join(ROOT, "replays", pid, "known_" + san(e.get("obligation", e.get("check", "x"))) + ".json")
+            rp = os.path.join(ROOT, REPLAYS, pid, "known_" + san(e.get("obligation", e.get("check", "x"))) + ".json")
             json.dump({"property": pid, "obligation": e.get("obligation"), "known": True, "replay": e["witness"],
                        "model": {}}, open(rp, "w"), indent=1)
             rc, out = run_replay(rp)
@@ -176,7 +206,7 @@ def check(pid, tier="quick", seed=0, jobs=None, only=None, verbose=False):
     for n in refuted:
         sub = [s for s in n["subs"] if s["status"] == "refuted"][0]
         con = C.REGISTRY[n["qual"]]
-        rp = os.path.join(ROOT, "replays", pid, san(n["name"].split("/", 1)[1]) + ".json")
+        rp = os.path.join(ROOT, REPLAYS, pid, san(n["name"].split("/", 1)[1]) + ".json")
         spec = {"property": pid, "obligation": n["name"], "model": sub.get("model", {}), "goal": sub.get("goal"),
                 "solver": sub.get("backend"), "function": n["qual"],
                 "solver_output": "sat; counter-model (decoded entry state): %s" % json.dumps(sub.get("model", {}))[:4000]}
@@ -202,7 +232,7 @@ def check(pid, tier="quick", seed=0, jobs=None, only=None, verbose=False):
     for b in bounded_fail:
         if b["name"] in known_bounded:
             continue
-        rp = os.path.join(ROOT, "replays", pid, "bounded_" + san(b["name"]) + ".json")
+        rp = os.path.join(ROOT, REPLAYS, pid, "bounded_" + san(b["name"]) + ".json")
         json.dump({"property": pid, "obligation": "bounded/" + b["name"], "failures": b["failures"][:20],
                    "replay": b.get("replay")}, open(rp, "w"), indent=1, default=str)
         violations += 1
@@ -260,8 +290,8 @@ def check(pid, tier="quick", seed=0, jobs=None, only=None, verbose=False):
     ev = {"property_id": pid, "tier": tier, "seed": seed, "level": level, "coverage": cov,
           "assumptions": sorted(trusted) + sorted(notes), "wall_s": round(time.time() - t0, 2), "violations": violations,
           "exit_code": exit_code}
-    os.makedirs(os.path.join(ROOT, "evidence"), exist_ok=True)
-    json.dump(ev, open(os.path.join(ROOT, "evidence", pid + ".json"), "w"), indent=1, default=str)
+    os.makedirs(os.path.join(ROOT, EVIDENCE), exist_ok=True)
+    json.dump(ev, open(os.path.join(ROOT, EVIDENCE, pid + ".json"), "w"), indent=1, default=str)
     print("%s: %d obligations, %d discharged, %d refuted, %d undecided; %d functions; bounded stand-ins: %d; %.1fs; exit %d"
           % (pid, n_obl, n_dis, len(refuted), len(unknown), len(results), len(bounded), time.time() - t0, exit_code))
     return exit_code
